@@ -819,11 +819,13 @@ class Executor:
                     return ("c", iv.v)
             v = st.load(p, ins.type, ins)
             st.events.append(Event("load", ins, f, (p,), v, len(st.facts), None, None, None, depth))
+            self.note_deref(st, p)
             return v
         if op == "store":
             v, p = T(ops[0]), T(ops[1])
             st.events.append(Event("store", ins, f, (p, v), None, len(st.facts), None, None, ins.d.get("val_type"), depth))
             st.do_store(p, v, ins.d.get("val_type", "i64"))
+            self.note_deref(st, p)
             return ("void",)
         if op in ("zext", "sext", "trunc", "fpext", "fptrunc", "fptoui", "fptosi", "uitofp", "sitofp"):
             a = T(ops[0])
@@ -891,6 +893,16 @@ class Executor:
         if op == "insertvalue":
             return ("iv", T(ops[0]), T(ops[1]), tuple(ins.d.get("indices", ())))
         return ("opaque", op, ins.id)
+
+    @staticmethod
+    def note_deref(st, p):
+        """a pointer that has been dereferenced on this path is not NULL afterwards: a later branch on `p == NULL` has only
+        its false arm (path pruning only - the list of facts, which the nullness rules consult, is not touched)"""
+        b = ptr_key(p)[0] if isinstance(p, tuple) else None
+        while isinstance(b, tuple) and b[0] == "idx":
+            b = ptr_key(b[1])[0]
+        if isinstance(b, tuple) and b[0] in ("ld", "call", "arg"):
+            st.nec.setdefault(b, set()).add(0)
 
     def elem_size(self, ty):
         """byte size of an element type of a single-index address computation (scalars, pointers, known structs)"""
